@@ -1,7 +1,9 @@
-(** C01 — reported reachability probabilities are the max-min values (structural part; the numeric
-    part on exact rationals is in Props/C01Q.v). *)
-From Coq Require Import String List Arith Bool.
-From CR Require Import Model.Num Model.Outcome Model.Graph Model.Game Proofs.GraphP Proofs.PipelineP.
+(** C01 — reported reachability probabilities are the max-min values.
+    Structural statements hold for every number instance (so for binary64); numeric statements are
+    about exact rationals (instance Q, the same Gallina text evaluated with exact arithmetic). *)
+From Coq Require Import String List Arith Bool QArith.
+From CR Require Import Model.Num Model.Outcome Model.Graph Model.Game Proofs.GraphP Proofs.PipelineP
+     Proofs.ReachQ Proofs.ReachQ2 Proofs.ReachQ3.
 Import ListNotations.
 
 (* every final state reports exactly one (any instance, in particular binary64) *)
@@ -22,6 +24,75 @@ Theorem C01_prune_independent : forall (T : Type) (K : ops T) fuel (g : game (T:
   solve_fuel K fuel g true = Ok r1 -> solve_fuel K fuel g false = Ok r2 -> r_probs r1 = r_probs r2.
 Proof. intros T K fuel g r1 r2 H1 H2. apply (prune_flag_irrelevant K fuel g r1 r2 H1 H2). Qed.
 
+(* Numeric part (exact rationals). For every well-formed game whose probabilistic states carry
+   non-negative probabilities summing to at most 1, and any fuel/pruning flag, whenever the
+   reachability half of solve returns: every reported probability is in [0,1] and at least the
+   initial indicator (the loop is monotone from below); it never exceeds the value gV m of the
+   m-step game for m = sweeps * |S| (a fortiori never the true value, which dominates every gV m);
+   and on every iterated state the Bellman residual is between 0 and the threshold 10^-6. *)
+Theorem C01_numeric : forall (g : game (T:=Q)),
+  wf_game qops g ->
+  (forall i, nth i (g_players g) PR = PR ->
+     nonneg_w (nth i (g_trans g) []) /\ (sumw (nth i (g_trans g) []) <= 1)%Q) ->
+  forall fuel prune sl1 rs it,
+  solve_reach_fuel qops fuel g prune = Ok (sl1, rs, it) ->
+  let p := reach_vec qops sl1 in
+  exists srf, reverse_dfs (tlg g) (g_finals g) = Ok srf /\
+    (forall j, (0 <= p j <= 1)%Q) /\
+    (forall j, (gx0 g j <= p j)%Q) /\
+    (forall j, (p j <= gV g (it * length srf) j)%Q) /\
+    (forall s, In s srf -> (0 <= gPhi g p s - p s <= q_thr)%Q).
+Proof. exact reach_numeric. Qed.
+
+(* the finite-horizon values are non-decreasing in the horizon and stay in [0,1] *)
+Theorem C01_horizon_values_monotone : forall (g : game (T:=Q)),
+  (forall i, nth i (g_players g) PR = PR ->
+     nonneg_w (nth i (g_trans g) []) /\ (sumw (nth i (g_trans g) []) <= 1)%Q) ->
+  forall m m' i, m <= m' -> (0 <= gV g m i <= gV g m' i)%Q /\ (gV g m' i <= 1)%Q.
+Proof.
+  intros g Hn m m' i Hle. unfold gV.
+  assert (Hw : forall i, gkd g i = PR -> nonneg_w (gtr g i)) by (intros k Hk; apply Hn; exact Hk).
+  assert (Hs : forall i, gkd g i = PR -> (sumw (gtr g i) <= 1)%Q) by (intros k Hk; apply Hn; exact Hk).
+  split; [split|].
+  - apply (V_bounds (gkd g) (gtr g) (gfin g) Hw Hs).
+  - apply (V_mono (gkd g) (gtr g) (gfin g) Hw Hs); exact Hle.
+  - apply (V_bounds (gkd g) (gtr g) (gfin g) Hw Hs).
+Qed.
+
+(* the reachability loop terminates: |S| * 10^6 + 1 sweeps of fuel always suffice *)
+Theorem C01_terminates : forall (g : game (T:=Q)),
+  wf_game qops g ->
+  (forall i, nth i (g_players g) PR = PR ->
+     nonneg_w (nth i (g_trans g) []) /\ (sumw (nth i (g_trans g) []) <= 1)%Q) ->
+  forall fuel prune srf,
+  reverse_dfs (tlg g) (g_finals g) = Ok srf ->
+  length srf * Z.to_nat 1000000 < fuel ->
+  solve_reach_fuel qops fuel g prune <> OutOfFuel.
+Proof. exact reach_terminates. Qed.
+
+(* "within the solver's tolerance of the true value" is FALSE in its error form (known finding K1):
+   on a 3-state well-formed game (self-loop with escape probability 2^-21) the loop stops after one
+   sweep, and the value of the 300-step game already exceeds the report by more than 100 thresholds *)
+Theorem C01_within_threshold_refuted :
+  exists (g : game (T:=Q)) sl1 rs it,
+    wf_game qops g /\ solve_reach_fuel qops 10 g false = Ok (sl1, rs, it) /\
+    (gV g 300 0 - reach_vec qops sl1 0 > 100 * q_thr)%Q.
+Proof.
+  destruct k1_gap as (sl1 & rs & it & H1 & H2). exists k1_game, sl1, rs, it.
+  split; [exact k1_wf|]. split; [exact H1|exact H2].
+Qed.
+
+(* non-vacuity: the witness game meets the hypotheses of C01_numeric *)
+Example C01_hypotheses_satisfiable :
+  wf_game qops k1_game /\
+  (forall i, nth i (g_players k1_game) PR = PR ->
+     nonneg_w (nth i (g_trans k1_game) []) /\ (sumw (nth i (g_trans k1_game) []) <= 1)%Q).
+Proof. split; [exact k1_wf|exact k1_num]. Qed.
+
 Print Assumptions C01_final_one.
 Print Assumptions C01_unreachable_zero.
 Print Assumptions C01_prune_independent.
+Print Assumptions C01_numeric.
+Print Assumptions C01_horizon_values_monotone.
+Print Assumptions C01_terminates.
+Print Assumptions C01_within_threshold_refuted.
